@@ -303,3 +303,32 @@ Qed.
 
 Lemma wf_cfg_inds C : wf_cfg_b C = true -> forallb wf_ag_ind_b (ac_indicators C) = true.
 Proof. unfold wf_cfg_b. destruct (ac_indicators C); [discriminate|auto]. Qed.
+
+(* ---------- after the SLC ---------- *)
+Lemma expected_inds_status inds : forall k, map hi_status (expected_inds k inds) = map ai_status inds.
+Proof. induction inds as [|i r IH]; intros k; cbn; [reflexivity|]. now rewrite IH. Qed.
+
+(* whatever the AG reports with +CIEV and whatever codec it proposes with +BCS, in any
+   order and number: the HF's copy of the AG indicator values stays equal to the AG's own,
+   and both ends hold the same active codec *)
+Lemma live_agree (H : hf_cfg) (C : ag_cfg) :
+  wf_cfg_b C = true ->
+  forall ops, exists s,
+    live_run H C ops = Some s /\
+    lv_hf_status s = lv_ag_status s /\ lv_hf_codec s = lv_ag_codec s.
+Proof.
+  intros Hwf ops. unfold live_run, live_init.
+  destruct (slc_result H C Hwf) as (h & a & Hs & _ & Hi & _). rewrite Hs.
+  eexists. split; [reflexivity|].
+  assert (Hinit : lv_hf_status (mkLive (map ai_status (ac_indicators C)) (map hi_status (hf_ag_indicators h)) 1 1 (ag_codecs a))
+                  = lv_ag_status (mkLive (map ai_status (ac_indicators C)) (map hi_status (hf_ag_indicators h)) 1 1 (ag_codecs a))
+                  /\ lv_hf_codec (mkLive (map ai_status (ac_indicators C)) (map hi_status (hf_ag_indicators h)) 1 1 (ag_codecs a))
+                  = lv_ag_codec (mkLive (map ai_status (ac_indicators C)) (map hi_status (hf_ag_indicators h)) 1 1 (ag_codecs a))).
+  { cbn. rewrite Hi, expected_inds_status. split; reflexivity. }
+  revert Hinit. generalize (mkLive (map ai_status (ac_indicators C)) (map hi_status (hf_ag_indicators h)) 1 1 (ag_codecs a)).
+  induction ops as [|o ops IH]; intros s [E1 E2]; cbn [fold_left]; [split; assumption|].
+  apply IH. destruct o as [name value|codec]; cbn [live_step].
+  - destruct (first_index name (ac_indicators C) 0) as [k|]; [|split; assumption].
+    cbn. replace (Z.to_nat (Z.of_nat k + 1 - 1)) with k by lia. rewrite E1. split; [reflexivity|exact E2].
+  - destruct (zmem codec (hc_codecs H)); cbn; split; auto.
+Qed.
